@@ -186,7 +186,7 @@ func newLenflow(c *Ctx, maxDepth int) *lfEngine {
 		if fn.Blocks == nil {
 			continue
 		}
-		allInstrs(fn, false, func(in ssa.Instruction) {
+		rawInstrs(fn, false, func(in ssa.Instruction) {
 			for _, op := range in.Operands(nil) {
 				if op == nil || *op == nil {
 					continue
@@ -2126,7 +2126,7 @@ func (e *lfEngine) isPure(f *ssa.Function) bool {
 	}
 	e.pure[f] = 1 // optimistic for recursion
 	ok := f.Blocks != nil
-	allInstrs(f, false, func(in ssa.Instruction) {
+	rawInstrs(f, false, func(in ssa.Instruction) {
 		switch x := in.(type) {
 		case *ssa.Store:
 			// stores to locals only
